@@ -1208,9 +1208,20 @@ def store(
                 lock=lock,
                 return_stored=return_stored,
                 load_stored=load_stored,
-                # The position is part of the name: the same source stored into two
-                # targets that tokenize alike (e.g. equal contents) must not share keys
-                token=f"store-map-{i}",
+                # A target is a sink with identity, not a value: the same source stored
+                # into two targets that tokenize alike (e.g. equal contents), in this
+                # call or in another lazy store computed together with this one, must
+                # not share keys
+                name="store-map-"
+                + tokenize(
+                    i,
+                    s,
+                    t if is_dask_collection(t) else id(t),
+                    r,
+                    lock,
+                    return_stored,
+                    load_stored,
+                ),
                 meta=s._meta,
             )
         )
